@@ -15,7 +15,8 @@ def plugin_pools(rng, per_plugin):
     out = []
     for label, p in plugins:
         defs = []
-        for i in range(per_plugin):
+        # Debug has by far the most shape x attribute branches
+        for i in range(per_plugin * (3 if label == "Debug" else 1)):
             td = p.make(random.Random(rng.random()), i)
             defs.append((i, td.render()))
         out.append((label, p, defs))
@@ -403,7 +404,7 @@ def main(tier):
     tie["extra"]["diagnostics"] = dict(hist)
     tie["failing"] = tie["failing"][:4]
     tie["broken"] = tie["broken"][:4]
-    tie["rule"] = ("pool A: %d definitions from each of the ten behavioural generators (all attribute spellings, noise traits); pool B: %d generic "
+    tie["rule"] = ("pool A: %d definitions from each of the ten behavioural generators (three times as many for Debug) (all attribute spellings, noise traits); pool B: %d generic "
                    "definitions (struct named/tuple/unit, enums with 1-4 variants, single-variant and empty enums; lifetime, 1-2 type and a const "
                    "parameter, inline `: Sized` bounds and where-clauses, raw identifiers r#type / r#match, #[repr(u8|i16|C|align|u8, align|C, u8)], "
                    "explicit discriminants; random trait sets closed under supertraits incl. Copy; ignore / rank / name / named_field / Default(new) "
